@@ -118,10 +118,11 @@ PickP ==
         /\ phase' = IF Diffable(a, b, T) THEN "pair" ELSE "undiffable"
 (* pairs that differ in nothing but comments of leaves (field, parameter) and of the levels above them: a class whose *)
 (* only change is the comment of a parameter still is a change                                                        *)
-LD == {<<>>, <<"d">>, <<"e">>}
+(* <<"">>: a comment that is the empty string is a comment (C04-10: diff treated it as none) *)
+LD == {<<>>, <<"d">>, <<"e">>, <<"">>}
 TreeSetL == {Root(NS, <<>>, MapOf({Class(<<"K", "x">>, dc, MapOf({Field(<<"f", "x">>, "I", df)})
                                                        @@ MapOf({Method(<<"m", "x">>, "()V", dm, MapOf({Param(0, <<"", "x">>, dp)}))}))})) :
-                dc \in {<<>>, <<"d">>}, df \in LD, dm \in {<<>>, <<"d">>}, dp \in LD}
+                dc \in {<<>>, <<"d">>, <<"">>}, df \in LD, dm \in {<<>>, <<"d">>}, dp \in LD}
 PickL ==
     /\ phase = "start"
     /\ \E a \in TreeSetL, b \in TreeSetL :
